@@ -10,6 +10,27 @@ def entry(pid, modules=(), **kw):
     INDEX[pid] = dict(modules=list(modules), **kw)
 
 
+def entry_extend(pid, modules=(), **kw):
+    """merge further modules / E1 targets / providers / trusted base / assumptions into the entry of a property
+    (creates the entry if there is none); EXPLANATION strings are concatenated"""
+    e = INDEX.setdefault(pid, dict(modules=[]))
+    for m in modules:
+        if m not in e["modules"]:
+            e["modules"].append(m)
+    for k, v in kw.items():
+        if k == "EXPLANATION":
+            e[k] = (e.get(k, "") + " " + v).strip()
+        elif k == "BOUNDED_FOR":
+            e.setdefault(k, {}).update(v)
+        elif k == "LEMMAS":
+            e[k] = e.get(k, False) or v
+        else:
+            cur = e.setdefault(k, [])
+            for x in v:
+                if x not in cur:
+                    cur.append(x)
+
+
 def load(pid):
     e = INDEX.get(pid)
     if not e:
